@@ -222,11 +222,15 @@ class PosePath3D(object):
         # Project poses and rotations (forcing to angle around normal).
         rotation_axis = np.zeros(3)
         rotation_axis[null_dim] = 1
-        for pose in self.poses_se3:
+        # Don't modify the pose matrices in place, they can be shared with
+        # other objects (e.g. split trajectories or the caller's pose list).
+        projected_poses = [np.array(pose) for pose in self.poses_se3]
+        for pose in projected_poses:
             pose[null_dim, 3] = 0
             angle_axis = rotation_axis * tr.euler_from_matrix(
                 pose[:3, :3], "sxyz")[null_dim]
             pose[:3, :3] = lie.so3_exp(angle_axis)
+        self._poses_se3 = projected_poses
 
         # Flush cached data that will be regenerated on demand via @property.
         if hasattr(self, "_positions_xyz"):
